@@ -1,7 +1,7 @@
 """C02 - hunk placement obeys the documented rules for offset, anchoring and fuzz (lib level)."""
 import common
 
-NEEDS = ('rqmc',)
+NEEDS = ('rqmc', 'rq')
 
 
 def run(tier, seed):
@@ -18,6 +18,10 @@ def run(tier, seed):
                    'set of matching positions (nearest match, forward wins ties, start/end anchoring, lowest fuzz level, failure only when nothing matches); '
                    'ambiguous readings (position of a prefix-trimmed block, order conflicts with the previous hunk) are accepted either way. '
                    'non-trivial = the hunk applied with >= 2 matching positions at the level used, or with fuzz > 0')
+    import wsprops
+    wsprops.run_c02_cli(tier, seed, res)
+    cov['cli_rule'] = ('CLI level: series whose second patch has a hunk with one wrong outermost context line (context width 1-3, first or last line) x --fuzz {unset,0,1,2,3} x threads {1,2} on the real '
+                       'binary: it must apply exactly when the limit reaches the level at which the documented rule trims the wrong line (unset means 0), and then change only the marked line')
     res.assumptions = ['old/new header line numbers are kept mutually consistent as in any real diff',
                        'a second hunk whose candidate positions touch the first hunk\'s block is only checked for clause 1 (the statement does not define hunk-order conflicts)']
     if doc['counters'].get('applied-with-fuzz', 0) < 1000 or doc['counters'].get('second-hunk-placement-depends-on-previous-offset', 0) < 10:
